@@ -654,7 +654,18 @@ namespace via
     {
       period_ = 0;
       timer_.cancel();
-      connection_->close();
+
+      // signal that the open connection is being disconnected
+      if (connection_->connected())
+      {
+        connection_->set_connected(false);
+        connection_->close();
+
+        if (disconnected_handler_)
+          disconnected_handler_();
+      }
+      else
+        connection_->close();
     }
 
     /// Accessor function for the comms connection.
